@@ -98,9 +98,14 @@ Uids(ch) == {ch[i].uid : i \in 1..Len(ch)}
 \* are "newer" and since when a version is noncurrent.
 \*   "truth": succession order, true creation times            (the property)
 \*   "mtime": LastModified descending, LastModified as time    (the code)
-TimeOf(v, order) == IF order = "mtime" THEN v.mtime ELSE v.created
+\*   "truthlate": succession order, but LastModified as time where it is later
+\*            than the creation time (a reconciler only sees LastModified; being
+\*            late is allowed) - used when asking whether something is SURELY due
+TimeOf(v, order) == CASE order = "mtime" -> v.mtime
+                      [] order = "truthlate" -> IF v.mtime > v.created THEN v.mtime ELSE v.created
+                      [] OTHER -> v.created
 Ordered(ch, order) ==
-  IF order = "truth" THEN ch
+  IF order \in {"truth", "truthlate"} THEN ch
   ELSE LET idx == SortSeq([i \in 1..Len(ch) |-> i],
                           LAMBDA a, b : ch[a].mtime < ch[b].mtime
                                         \/ (ch[a].mtime = ch[b].mtime /\ a < b))
@@ -203,11 +208,12 @@ KeepsOK(S, R, now, c, Q) ==
 
 \* ExpWinsOK: no transition of something whose expiration is (surely) due
 ExpWinsOK(S, R, now, c, Q) ==
-  LET ch == ChainOf(S, c.key) IN
+  LET ch == ChainOf(S, c.key)
+      QL == [Q EXCEPT !.order = IF @ = "truth" THEN "truthlate" ELSE @] IN
   c.op = "Transition" =>
-    IF c.vid = 0 THEN ~ExpireDue(ch, c.key, R, now, Q, TRUE)
+    IF c.vid = 0 THEN ~ExpireDue(ch, c.key, R, now, QL, TRUE)
     ELSE \A i \in VersionsWithId(ch, c.vid) :
-           i < Len(ch) => ~NveDue(ch, c.key, ch[i], R, now, Q, TRUE)
+           i < Len(ch) => ~NveDue(ch, c.key, ch[i], R, now, QL, TRUE)
 
 \* identity (uid) of the thing call c would hit in store S; 0 = nothing
 TargetUid(S, c) ==
@@ -412,6 +418,11 @@ MCChains(ver) ==
        \cup {<<MkObj(1, 1, T(0, 0), 10, {}, "e1"), MkDM(2, t)>> : t \in MCTimes}
        \cup {<<MkDM(1, T(0, 0)), MkDM(2, T(0, 630))>>}
        \cup {<<MkObj(1, 1, T(0, 0), 10, {}, "e1"), MkObj(2, 2, T(0, 5), 10, {}, "e2"),
+               MkObj(3, 3, T(0, 9), 10, {}, "e3"), MkObj(4, 4, t, 10, {}, "e4")>> : t \in MCTimes}
+       \* LastModified NOT monotone with succession (a backend may bump it, e.g. on
+       \* tagging): the two oldest versions carry the newest LastModified values
+       \cup {<<[MkObj(1, 1, T(0, 0), 10, {}, "e1") EXCEPT !.mtime = T(0, 600)],
+               [MkObj(2, 2, T(0, 5), 10, {}, "e2") EXCEPT !.mtime = T(0, 500)],
                MkObj(3, 3, T(0, 9), 10, {}, "e3"), MkObj(4, 4, t, 10, {}, "e4")>> : t \in MCTimes}
 MCActs ==
   {[NoAct EXCEPT !.exp = [kind |-> "days", n |-> 1]],
